@@ -80,6 +80,12 @@ class Models:
             return Z(a.e & b.e)
         if op == "BitOr":
             return Z(a.e | b.e)
+        if op in ("MulWithOverflow", "AddWithOverflow", "SubWithOverflow") and z3.is_int(a.e) and z3.is_int(b.e):
+            # (result, overflowed) over mathematical integers for usize operands
+            r = a.e * b.e if op.startswith("Mul") else (a.e + b.e if op.startswith("Add") else a.e - b.e)
+            return Agg("tuple", [Cell(Z(r)), Cell(Z(z3.Or(r > 2 ** 64 - 1, r < 0)))])
+        if op in ("Div", "Rem") and z3.is_int(a.e) and z3.is_int(b.e):
+            return Z(a.e / b.e if op == "Div" else a.e % b.e)
         f = {"Eq": lambda x, y: x == y, "Ne": lambda x, y: x != y, "Lt": lambda x, y: x < y, "Le": lambda x, y: x <= y,
              "Gt": lambda x, y: x > y, "Ge": lambda x, y: x >= y, "Mul": lambda x, y: x * y, "Add": lambda x, y: x + y,
              "Sub": lambda x, y: x - y}.get(op)
@@ -517,6 +523,8 @@ class Models:
         if isinstance(v, Opaque) and v.what == "vec" and isinstance(v.data, tuple) and v.data[0] == "zeroed":
             return v.data[1].e
         if isinstance(v, Opaque) and isinstance(v.data, str):
+            return z3.Int("len_" + v.data)
+        if isinstance(v, Opaque) and v.what == "slice" and isinstance(v.data, str):
             return z3.Int("len_" + v.data)
         raise Unsupported("length of " + repr(v)[:80])
 
